@@ -87,7 +87,7 @@ CLAIMED = {
              'operator; failed try_into; MIN arms; listed assert sites) — the canonical form on which derived equality, hash, text and the '
              'mixed comparison arms rely; overflow-capable machine arithmetic on the small form only behind arms excluding (MIN,-1)/MIN; '
              'impls of Op/OpAssign apply only Op; swapped or-patterns only in commutative operators; Rem floored as documented; mixed '
-             'comparison arms mirrored (abstract decision table on the MIR); the int builtins register the operator of the same name; every integer a binary int native returns is computed by the operator of that native from both operands; no saturating float-to-integer `as` cast yields a program integer; abs of the machine word only where i64::MIN is excluded; integer functions of the stdlib written in the language do not round a float quotient; the float parse of a number literal is reached only after the spelling was tested for being an integer spelling; the machine-parse shortcut of from_str_radix reaches the arbitrary-size parser on every path for both overflow kinds (decision table over IntErrorKind). NOT decided: exactness of gcd/'
+             'comparison arms mirrored (abstract decision table on the MIR); the int builtins register the operator of the same name; every integer a binary int native returns is computed by the operator of that native from both operands; no saturating float-to-integer `as` cast yields a program integer; abs of the machine word only where i64::MIN is excluded; integer functions of the stdlib written in the language do not round a float quotient; the float parse of a number literal is reached only after the spelling was tested for being an integer spelling; the machine-parse shortcut of from_str_radix reaches the arbitrary-size parser on every path for both overflow kinds (decision table over IntErrorKind); where an int native reduces one number by `%` (floored) and by a division, the division is the floored one or exact (its dividend is n - r). NOT decided: exactness of gcd/'
              'factorial/roots/binom/multinom arithmetic and of text/float conversions (value-level).',
         note='Trusted: syn parse; i64 checked_* and num-bigint semantics; the book for the rounding mode of mod.',
         technique='static analysis: syntax-tree rules (constructor-site classification, arm-order guards, operator/trait agreement, table agreement with the book); cast / call inventories, dominance and control-dependence rules and an abstract decision table on resolved MIR; a lexical rule over the stdlib text',
@@ -97,7 +97,7 @@ CLAIMED = {
         text='Effect-freedom decided as a capability argument on the resolved call graph: none of the ~1280 bodies reachable from feed_file '
              '(pest parser, compilation scope, type relations, and the 60 compile-time callbacks of dynamic functions) calls the evaluator, a '
              'native or a dyn-eval callback, nor has a local of runtime/scope type — the only road to the injected writer, clock and rng. '
-             'Errors are rendered against the very text that was parsed (same origin of both operands in feed_file), so their byte offsets index it. The auto type `$` stays a whole turbofish slot: every recursive call of get_complete_type (helpers of the file included) passes the constant false for the auto permission. Totality is decided partially: every rule-dispatching match covers all alternatives of the grammar choice it dispatches on '
+             'Every Option / Result unwrapped in the type layer (type relations, compilation scope, entry point, error rendering, compile-time helpers of the dynamic functions) is listed with the invariant that makes the value present (a new unwrap is reported). Errors are rendered against the very text that was parsed (same origin of both operands in feed_file), so their byte offsets index it. The auto type `$` stays a whole turbofish slot: every recursive call of get_complete_type (helpers of the file included) passes the constant false for the auto permission. Totality is decided partially: every rule-dispatching match covers all alternatives of the grammar choice it dispatches on '
              '(computed from the pest rule tree), unwrap chains on rule children stay within the guaranteed children, and every explicit '
              'panic!/unreachable!/unimplemented! of the compile phase is a covered dispatch default or listed with a reason; text-to-number '
              'conversions are never unwrapped; every position-indexed access of the compile phase (and every slice of source text with constant bounds) is dominated by a length test of the same collection or listed with a reason; '
@@ -198,7 +198,7 @@ CLAIMED = {
              'argument-derived start tests it against the length first, and, because that test admits start == len, FencedString looks a caller-supplied position up in the code-point table only by length-tolerant accesses (get / range slice / index under a length test); inside FencedString an entry of the char-start table (a byte offset) is added to / subtracted from byte quantities or constants only, never a character index or count (unit origins through closures and captured variables); a unit analysis on the MIR (byte offsets vs code-point counts, origins walked backwards through statements, calls and closures) '
              'shows that no byte offset reaches a code-point sink (substring/substr indices, padding widths, integers returned by the str and regex '
              'natives) and no program-supplied index reaches a byte API (&str slicing, regex Input ranges) without conversion; the escape table equals the book\'s list with validated \\u{..} scalars; raw strings '
-             'bypass unescaping while quoted and f-string text parts go through it; escape sequences are decoded in one pass (the escape pattern is scanned over literal text only, never over already decoded text); every string-body rule of the grammar that treats backslashes consumes backslash + its own delimiter as a unit (the documented \\" and \\\' work inside literals of the same quote); the keep-the-original fast path of to_lowercase / to_uppercase is taken only on a universal statement of the target-case predicate (titlecase letters are neither upper nor lower). NOT decided: agreement of split/replace/strip/... (xray '
+             'bypass unescaping while quoted and f-string text parts go through it; escape sequences are decoded in one pass (the escape pattern is scanned over literal text only, never over already decoded text); every string-body rule of the grammar that treats backslashes consumes backslash + its own delimiter as a unit (the documented \\" and \\\' work inside literals of the same quote); the keep-the-original fast path of to_lowercase / to_uppercase is taken only on a universal statement of the target-case predicate (titlecase letters are neither upper nor lower); the pattern validating the code of \\u{..} is anchored at both ends and describes 1 to 6 hexadecimal digits. NOT decided: agreement of split/replace/strip/... (xray '
              'stdlib text) with code-point semantics.',
         note='Trusted: syn parse; the book (lang/string_literals.md).',
         technique='static analysis: construction-site rules, guard-before-slice and table agreement with the book on the syntax tree; unit (byte vs code point) origin analysis on resolved MIR',
